@@ -127,6 +127,13 @@ def squash (mol : Mol) : Mol :=
       if keep == rem then acc
       else (contract acc.1 keep rem, (rem, keep) :: acc.2)) (mol, [])).1
 
+/-- executable form of the hypothesis the C10/C12 theorems make about fragment templates (distinct keys,
+    bonds between the template's own atoms); the driver reports it for every template set it is handed -/
+def Mol.wfb (m : Mol) : Bool :=
+  decide m.keys.Nodup && m.edges.all fun e => m.keys.contains e.a && m.keys.contains e.b
+
+def fragsWFb (fd : FragDict) : Bool := fd.all fun p => p.2.wfb
+
 /-- phase A of a resolution step -/
 def phaseA (legacyCompat : Desc → Desc → Bool) (allAtom : Bool) (mg : Meta) (fd : FragDict) : Py (Mol × List Key) := do
   let (mol, inst) ← disconnected mg fd
